@@ -10,8 +10,11 @@ import (
 	"fmt"
 	"io"
 	"os"
+	"runtime"
+	"runtime/debug"
 	"strings"
 	"sync"
+	"syscall"
 	"time"
 
 	"grits/parser"
@@ -118,6 +121,14 @@ func captureStdout(f func()) string {
 	wg.Wait()
 	r.Close()
 	return buf.String()
+}
+
+func cpuMicros() int64 {
+	var ru syscall.Rusage
+	if err := syscall.Getrusage(syscall.RUSAGE_SELF, &ru); err != nil {
+		return 0
+	}
+	return ru.Utime.Sec*1e6 + int64(ru.Utime.Usec) + ru.Stime.Sec*1e6 + int64(ru.Stime.Usec)
 }
 
 func errStr(e error) string {
@@ -262,9 +273,17 @@ func handle(rq Req) (resp map[string]interface{}) {
 			resp["dump"] = process.VerifDumpProgram(procs, genv)
 		}
 	case "parse":
+		// timing: the collector is switched off while the text is parsed (its parallel marking makes both wall and processor time of one and the
+		// same parse vary by an order of magnitude on a loaded machine); cpu_us is the processor time of the worker process, which does not count
+		// the time the process waited for a core
+		runtime.GC()
+		old := debug.SetGCPercent(-1)
+		c0 := cpuMicros()
 		t0 := time.Now()
 		procs, assumed, genv, err := parser.ParseString(rq.Text)
 		resp["us"] = time.Since(t0).Microseconds()
+		resp["cpu_us"] = cpuMicros() - c0
+		debug.SetGCPercent(old)
 		resp["parse"] = errStr(err)
 		if err == nil {
 			var pn, fn, tn []string
